@@ -51,7 +51,7 @@ class ExactModel(gpytorch.models.ExactGP):
         bs = torch.Size(batch_shape)
         self.fam = fam
         n = X.shape[-2] if X.dim() > 1 else X.shape[0]
-        if fam in ("fixednoise", "fixednoise_learn", "fixednoise_sgpr"):
+        if fam in ("fixednoise", "fixednoise_learn", "fixednoise_sgpr", "fixednoise_kiss"):
             if noise is None:
                 noise = 0.05 + 0.1 * torch.arange(n, dtype=F64) / n
             lik = gpytorch.likelihoods.FixedNoiseGaussianLikelihood(
@@ -76,7 +76,7 @@ class ExactModel(gpytorch.models.ExactGP):
                                                                           P.HalfCauchyPrior(1.5) if "os" in priors else None))
         if fam in ("exact", "fixednoise", "fixednoise_learn", "fwdkw"):
             self.covar_module = base
-        elif fam == "kiss":
+        elif fam in ("kiss", "fixednoise_kiss"):
             self.covar_module = K.ScaleKernel(K.GridInterpolationKernel(K.RBFKernel(), grid_size=10, grid_bounds=[(-0.6, 1.6)] * d))
         elif fam == "kiss_auto":  # no grid_bounds: the grid is fitted to the data it sees (and re-fitted when inputs leave its range)
             self.covar_module = K.ScaleKernel(K.GridInterpolationKernel(K.RBFKernel(), grid_size=10, num_dims=d))
